@@ -59,7 +59,7 @@ CHECKS = {
    text="A history is a pool of generated inputs, a sequence of (input, configuration) expansions with repetition, and a thread count; every later or concurrent expansion must be byte-identical to the first. Hash-order or thread-local state would show because each history constructs fresh hash states and threads; every fourth history is also expanded in two fresh child processes in forward and reverse order (state left behind by the first expansion of a process)."),
  "C19": dict(level="exploration", engine="R", design="6/C19",
    technique="property-based testing: counting global allocator around the macro expression of generated join! / try_join! programs (allocation claim); differential compile-and-run of typed chains over !Send / move-only values and caller-stack borrows (bounds claim)",
-   text="Stage 1: generated sequential programs whose user code does not allocate (preallocated event log) are evaluated under enumerated failure plans; the evaluating thread's allocation counter must not move across the macro expression. Stage 2: typed chains under the four non-spawning macros with values that are neither Send nor Clone, move-only values, shared and mutable borrows of the caller's locals, up to 7 branches; the macro side must compile whenever the documented chain does and agree with it."),
+   text="Stage 1: generated sequential programs whose user code does not allocate (preallocated event log) are evaluated under enumerated failure plans; the evaluating thread's allocation counter must not move across the macro expression. Stage 2: typed chains under the four non-spawning macros with values that are neither Send nor Clone, move-only values, shared and mutable borrows of the caller's locals (also from handlers, whose futures hold the borrow in the async macros), up to 7 branches; the macro side must compile whenever the documented chain does and agree with it."),
  "C17": dict(level="exploration", engine="R", design="6/C17",
    technique="property-based testing: wide / long generated grid programs with captures on most positions against the reference model (index stage); typed chains with macro invocations nested in operands, captures and initial values to depth 3, compared with the documented chain (nesting stage)",
    text="Stage 1: programs with up to 24 branches x 24 actions per step and block captures on 70 % of the operand positions under the eight macro kinds - a clash between any two generated names makes a branch use another position's closure or value, which the model comparison shows. Stage 2: every nested invocation (12 macro names; inside operands, block captures, initial values and handlers; depth <= 3) is evaluated once inside an expansion and once in plain Rust and must agree."),
